@@ -48,6 +48,11 @@ def run(chk: Check, proj: Project) -> None:
 
     chk.borrow("S15", "what is put where a CSS placeholder / </head> was is CSS and what is put where a JS placeholder / </body> was is JS: kind flow from the collected tags to the replacement values and the insertion helper's keyword arguments (shared with C19-S11)",
                lambda sub: C19.s11_kind_flow(sub, proj, world(proj)), only=lambda o: "render_dependencies" in o.construct or "on_replace_match" in o.construct or "_insert_js_css" in o.construct)
+    from . import C07 as _C07
+
+    _w = world(proj)
+    chk.borrow("S16", "what one call of render_dependencies found in ITS document stays in that call: the placeholder-found flags (which decide whether the default locations are used) are locals / closure cells - module-level bookkeeping that is cleared at the top and read after the substitution is overwritten by a second call that runs in between (another thread, or a render started from a Media hook), and a document without placeholders loses its default-location insertion (shared with C07-S1-C)",
+               lambda sub: _C07.s1c_shared(sub, proj, _w, _C07.reach_set(proj, _w)), only=lambda o: o.construct.startswith("dependencies:"))
     chk.borrow("S13", "no bookkeeping record survives because its reader does not recognise it: every marker comment / placeholder the writers can emit (for every class name, a leading underscore included) is fully matched by the regex that removes it (shared with C04-S1)",
                lambda sub: C04.s1_records(sub, proj, Evaluator(proj, world(proj).cg)), only=lambda o: "marker-comment" in o.construct or "placeholder" in o.construct.lower())
 
